@@ -79,6 +79,12 @@ func proxyErrorHandler(rw http.ResponseWriter, req *http.Request, err error) {
 }
 
 func defaultReverseProxyHTTPHandler(forwardTo *url.URL, headerInjectors []reverseproxy.HeaderInjector) http.Handler {
+	transport := http.DefaultTransport.(*http.Transport).Clone()
+	// Forward requests and responses as they are: without this the transport
+	// adds "Accept-Encoding: gzip" to requests that did not carry the header
+	// and silently decompresses the backend's gzip response for the client.
+	transport.DisableCompression = true
+
 	handler := reverseproxy.NewHTTPHandler(
 		forwardTo,
 		&httputil.ReverseProxy{
@@ -86,7 +92,7 @@ func defaultReverseProxyHTTPHandler(forwardTo *url.URL, headerInjectors []revers
 			FlushInterval: parseReverseProxyFlushInterval(),
 			ErrorHandler:  proxyErrorHandler,
 			// TODO: customize transport
-			Transport: http.DefaultTransport.(*http.Transport).Clone(),
+			Transport: transport,
 		},
 		headerInjectors,
 	)
